@@ -43,9 +43,10 @@ SEARCH_ARGS = {
 }
 BUILDER_SEARCH_ARGS = {
     'alignup_uoffset': ['x', 'align'],
-    'alignup_size': ['x', 'align'],
     'front_pad': ['emit_start', 'size', 'align'],
     'back_pad': ['emit_end', 'align'],
+    'emit_front': ['emit_start', 'iov_len'],      # results: 1 = the range test rejects, 0 = it lets the block through
+    'emit_back': ['emit_end', 'iov_len'],
 }
 
 
@@ -63,7 +64,7 @@ def _search_one(ctx, conv_mod, area, leaf, names):
     rc, out = lib.sh(['coqc', '-Q', lib.COQ, 'Flatcc', v], timeout=900, cwd=ctx.bdir)
     if rc != 0:
         return {'leaf': leaf, 'error': out[-1500:]}
-    flat = ' '.join(out.split())
+    flat = ' '.join(out.split()).replace('%Z', '').replace('%list', '')
     if re.search(r'=\s*None\b', flat): return None
     m = re.search(r'=\s*Some\s*\(\s*(\[[^\]]*\]|nil)\s*,\s*(\[[^\]]*\])\s*\)', flat)
     if not m: return {'leaf': leaf, 'error': 'unparsed search output: ' + flat[:400]}
@@ -98,7 +99,9 @@ def _regen(ctx, family, gen_rel, prop_module, conv_mod, area, table, model_mod):
         return False, 'T5 %s: the source left the translated subset or a leaf disappeared (%s) no-failing-input-found' % (family, e)
     changed = ctx.write_generated(gen_rel, text)
     LAST['regenerated_changed'] = changed
-    ok = ctx.check_theorems(prop_module=prop_module)
+    o0, d0 = ctx.obligations, ctx.discharged
+    ctx.check_theorems(prop_module=prop_module)
+    ok = ctx.obligations > o0 and (ctx.obligations - o0) == (ctx.discharged - d0)      # this module's theorems only
     if ok:
         return True, '%s: %d leaves translated from %s, equivalence with the hand model re-checked' % (
             gen_rel, len(table), cleaf_to_coq.FAMILIES[family]['src'])
@@ -120,7 +123,7 @@ def regen_leaves(ctx):
 
 
 def regen_builder_leaves(ctx):
-    return _regen(ctx, 'builder', 'Generated/Leaf_builder.v', 'Properties_C12c', 'LeafConvB', 'Emitter', BUILDER_SEARCH_ARGS, 'EmitModel')
+    return _regen(ctx, 'builder', 'Generated/Leaf_builder.v', 'Properties_C12c', 'LeafConvB', 'Builder', BUILDER_SEARCH_ARGS, 'Builder/EmitModel')
 
 
 if __name__ == '__main__':
